@@ -17,17 +17,37 @@ def main():
     # scratch cwd: the actuator writes backtest-with-error.* to ./ on RuntimeError
     scratch = tempfile.mkdtemp(prefix="verif-cwd-")
     os.chdir(scratch)
+    run = None
     try:
         mod = importlib.import_module(f"mc.checks.{pid.lower()}")
         from mc.engine.core import Run
 
         run = Run(pid, mod.LEVEL, sys.argv[2:])
         if run.replay_path:
+            import json
+
+            rec = json.load(open(run.replay_path))
+            if isinstance(rec.get("case"), dict) and rec["case"].get("kind") == "library-exception":
+                print(rec["detail"]["trace"])
+                print("REPLAY recorded library failure (re-run the check to reproduce it):", rec["signature"])
+                return 1
             return mod.replay(run, run.replay_path)
         return mod.main(run)
     except SystemExit:
         raise
-    except BaseException:
+    except BaseException as e:
+        from mc.engine.core import classify_exception
+
+        lf = classify_exception(e) if isinstance(e, Exception) else None
+        if lf is not None and run is not None and not run.replay_path:
+            # the library itself failed on a call the check makes (and that it serves on the unchanged tree): a violation, with the traceback as the artefact
+            run.violation(f"{pid}|library-exception|{lf.etype}|{lf.where}", f"the library raised {lf.etype} ({lf.message[:120]}) inside {lf.where} on a call of this check "
+                          "that no oracle expects to fail", {"kind": "library-exception"}, {"trace": lf.trace})
+            run.exhaustive = False
+            rc = run.finish({"states": 1, "transitions": 1, "traces_validated_against_impl": 1, "evaluations": 1, "distinct_nontrivial": 1,
+                             "rule": "the exploration was cut short by an exception raised inside the library under test", "exhaustive": False},
+                            ["run aborted by a library failure; see the replay artefact for the traceback"])
+            return rc
         traceback.print_exc()
         print(f"HARNESS-ERROR property={pid}")
         return 2
